@@ -11,4 +11,9 @@ for id in $ids; do
   if [ $first = 1 ]; then ./check "$id" --build-only; first=0; else ./check "$id" --build-only & fi
 done
 wait
+# free running race detector builds (checks whose verif.json asks for the supplement)
+for id in $ids; do
+  d=src/$(echo $id | tr A-Z a-z)
+  if grep -q '"race_supplement": *true' $d/verif.json 2>/dev/null; then ./check "$id" --race --build-only || echo "race build of $id failed (the check runs without the supplement)"; fi
+done
 echo setup done
